@@ -1,5 +1,104 @@
 import Rtcm.Model.Names
-import Rtcm.Model.Socket
+import Rtcm.Model.WF
 import Rtcm.Gen.Tables
+/-
+  C18 — MSM and harmonic-coefficient array helpers agree with the flat attributes.
+-/
 namespace Rtcm
+
+abbrev T18 := Rtcm.Gen.tables
+
+/-- names of the plain fields directly inside the groups counted by attribute `cfid` -/
+def groupFieldNames (T : Tables) (cfid : Nat) : List Item → List Label
+  | [] => []
+  | .group (.attr f _) body :: rest =>
+    (if f = cfid then body.filterMap (fun it => match it with | .field x => some (T.fieldName x) | _ => none) else [])
+      ++ groupFieldNames T cfid rest
+  | _ :: rest => groupFieldNames T cfid rest
+
+/-- every field that an MSM definition lays out per satellite / per cell is in the helper's
+    attribute list: the helper cannot silently drop a decoded field -/
+theorem C18_helper_lists_complete :
+    ∀ e ∈ T18.msm,
+      (groupFieldNames T18 T18.fidNSat e.2).all (fun n => msmSatAttrs.contains n) = true
+      ∧ (groupFieldNames T18 T18.fidNCell e.2).all (fun n => msmCellAttrs.contains n) = true := by
+  decide +kernel
+
+/-- for every MSM definition the constellation's epoch field named by GNSSMAP is a top-level field
+    of that definition (so `meta["epoch"]` exists) and DF003 too -/
+theorem C18_epoch_in_def :
+    ∀ e ∈ T18.msm, (match (ident3 e.1).bind (assocGet T18.gnssmap) with
+      | some (_, epoch) => e.2.any (fun it => match it with | .field x => x == epoch | _ => false)
+          && e.2.any (fun it => match it with | .field x => some x == T18.special.df003 | _ => false)
+      | none => false) = true := by
+  decide +kernel
+
+/-- the helper returns nothing for a message that is not MSM -/
+theorem C18_non_msm_none (T : Tables) (m : Msg) (h : m.ismsm T = false) : parseMsm T m = .ok none := by
+  simp [parseMsm, h]
+
+/-- … and nothing — rather than raising — for a message number that is merely reserved for MSM:
+    such a message is a stub whose only attribute is DF002, so it has no NSat -/
+theorem C18_reserved_msm_none (T : Tables) (p : Bytes) (l : Nat) (id : Ident) (m : Msg)
+    (hid : identity p = .ok id) (hnone : getDict T id = none) (hc : construct T (some p) l = .ok m)
+    (hname : T.fieldName ((T.special.df002).getD 0) ≠ strL "NSat") :
+    parseMsm T m = .ok none := by
+  have hm : m = ⟨p, l, id, true, [(((T.special.df002).getD 0, []), .text id.str)], true⟩ := by
+    simp [construct, hid, hnone] at hc
+    exact hc.symm
+  subst hm
+  unfold parseMsm
+  split
+  · rfl
+  · have : Msg.getByName T ⟨p, l, id, true, [(((T.special.df002).getD 0, []), .text id.str)], true⟩ (strL "NSat") = none := by
+      simp [Msg.getByName, render, renderName, hname]
+    rw [this]
+
+theorem C18_df002_is_not_NSat : T18.fieldName ((T18.special.df002).getD 0) ≠ strL "NSat" := by decide +kernel
+
+/-- the coefficient helper returns nothing for every identity other than 4076_201 -/
+theorem C18_other_identity_none (T : Tables) (m : Msg) (h : m.id ≠ ⟨4076, some 201⟩) :
+    parse4076_201 T m = .ok none := by
+  simp [parse4076_201, h]
+
+/-- each satellite / cell row holds, for every listed attribute present on the message, exactly the
+    value of the correspondingly indexed attribute, in list order -/
+theorem C18_rows_are_indexed_attributes (T : Tables) (m : Msg) (names : List Label) (n i : Nat) (hi : i < n) :
+    (rowsFor T m names n)[i]? = some (names.filterMap fun a =>
+      (m.getByName T (renderName a [i + 1])).map fun v => (a, v)) := by
+  simp [rowsFor, hi]
+
+theorem C18_row_count (T : Tables) (m : Msg) (names : List Label) (n : Nat) : (rowsFor T m names n).length = n := by
+  simp [rowsFor]
+
+/-- the coefficient run of a layer is exactly the attributes `field_LL_01, field_LL_02, …` up to the
+    first missing one: with `k` of them present and the next absent it returns those `k` values -/
+theorem C18_coeff_run (T : Tables) (m : Msg) (field : Label) (lyr : Nat) :
+    ∀ (fuel i : Nat) (vals : List Val),
+      (∀ j, j < vals.length → m.getByName T (renderName field [lyr, i + j]) = vals[j]?) →
+      m.getByName T (renderName field [lyr, i + vals.length]) = none → vals.length < fuel →
+      coeffRun T m field lyr fuel i = vals
+  | 0, _, _, _, _, h => by omega
+  | fuel + 1, i, [], _, hend, _ => by
+    simp only [coeffRun]
+    simp at hend
+    rw [hend]
+  | fuel + 1, i, v :: vs, hv, hend, hf => by
+    simp only [coeffRun]
+    have h0 := hv 0 (by simp)
+    simp at h0
+    rw [h0]
+    simp only
+    congr 1
+    apply C18_coeff_run T m field lyr fuel (i + 1) vs
+    · intro j hj
+      have := hv (j + 1) (by simp; omega)
+      simp at this
+      rw [show i + 1 + j = i + (j + 1) by omega]
+      exact this
+    · simp at hend
+      rw [show i + 1 + vs.length = i + (vs.length + 1) by omega]
+      exact hend
+    · simp at hf; omega
+
 end Rtcm
